@@ -71,7 +71,7 @@ theorem range_filter_map_getD {β} (l : List β) (q : β → Bool) (d : β) :
     congr 1
     have h3 : (l ++ [a]).getD l.length d = a := by simp [List.getD_eq_getElem?_getD]
     simp only [List.filter_cons, h3]
-    split <;> simp [h3]
+    split <;> simp
 
 /-! ## bincount -/
 
@@ -288,7 +288,7 @@ theorem membersIdx_snoc (ids : List Nat) (x g : Nat) :
     intro i hi
     rw [getD_append_left' _ _ _ _ (List.mem_range.mp hi)]
   · have : (ids ++ [x]).getD ids.length 0 = x := by simp [List.getD_eq_getElem?_getD]
-    simp [List.filter_cons, this]
+    simp [List.filter_cons]
 
 theorem membersIdx_lt (ids : List Nat) (g i : Nat) (h : i ∈ membersIdx ids g) :
     i < ids.length ∧ ids.getD i 0 = g := by
@@ -657,7 +657,7 @@ theorem valueNth_eq {α} (p : Pop) (k : Nat) (a : List α) (d : α) (hlen : a.le
     valueNth p k a d = .ok ((List.range p.n).map fun g => (valuesOf p none g a)[k]?.getD d) := by
   have hids := ids_lt_of_ms p hg
   have hidne : p.ids ≠ [] := by simpa [Pop.ids] using hne
-  unfold valueNth
+  unfold valueNth valueNthWith
   rw [if_neg (by omega), membersPosition_eq _ hidne]
   simp only
   rw [bincount_eq _ _ hids, orderedMap_eq _ _ hids]
@@ -682,7 +682,7 @@ theorem valueNth_eq {α} (p : Pop) (k : Nat) (a : List α) (d : α) (hlen : a.le
         apply List.filter_congr
         intro i hi
         have hi' := (membersIdx_lt p.ids g i hi).1
-        simp [List.getD_eq_getElem?_getD, List.getElem?_eq_getElem, hi']
+        simp [List.getD_eq_getElem?_getD, hi']
       rw [hpos, filter_eq_getElem? _ _ k (by rw [membersIdx_map_posOf, membersIdx_length]),
         valuesOf_none_eq_idx p a d hlen g, List.getElem?_map]
       cases (membersIdx p.ids g)[k]? <;> rfl)
@@ -1019,9 +1019,8 @@ theorem valueFromPerson_eq {α} (p : Pop) (a : List α) (r : Role) (d : α) (hma
     valueFromPerson p a r d
       = .ok ((List.range p.n).map fun g => (valuesOf p (some r) g a).head?.getD d) := by
   have hids := ids_lt_of_ms p hg
-  unfold valueFromPerson
+  unfold valueFromPerson valueFromPersonWith
   rw [if_neg (by simp [hmax]), if_neg (by omega)]
-  simp only
   rw [groupAny_eq p (p.hasRole r) none (by simp [Pop.hasRole]) hg]
   simp only
   rw [orderedMap_eq _ _ hids]
@@ -1084,7 +1083,7 @@ theorem double_argsort (v : List EInt) (c : Nat) (hc : c < v.length) :
   have hp := argsortE_perm v
   have hl : (argsortE v).length = v.length := by simpa using hp.length_eq
   rw [argsortN_inverse _ (by rw [hl]; exact hp), hl]
-  simp [List.getD_eq_getElem?_getD, List.getElem?_eq_getElem, hc]
+  simp [List.getD_eq_getElem?_getD, hc]
 
 /-! ## generic facts on sorted lists and indices -/
 
@@ -1105,7 +1104,7 @@ theorem sorted_split {R : Nat → Nat → Prop} (q : Nat → Bool) (s : List Nat
         intro b hb; simp [hnone b hb])
       have h2 : s.filter (fun c => !q c) = s := List.filter_eq_self.mpr (by
         intro b hb; simp [hnone b hb])
-      simp [List.filter_cons, ha, h1, h2]
+      simp [ha, h1, h2]
     · simp only [List.filter_cons, ha, Bool.not_true, if_true, Bool.false_eq_true, if_false,
         List.cons_append]
       rw [← ih hs.2]
@@ -1169,7 +1168,7 @@ theorem rankRow_eq (p : Pop) (f : List EInt) (m g : Nat) (hg : g < p.n) :
   simp only [rankRow, rowOf, List.map_map]
   apply List.map_congr_left
   intro k _
-  simp [List.getD_eq_getElem?_getD, List.getElem?_eq_getElem, hg]
+  simp [List.getD_eq_getElem?_getD, hg]
 
 theorem list_eq_range_map_getD {α} (l : List α) (d : α) :
     l = (List.range l.length).map (fun i => l.getD i d) := by
@@ -1484,5 +1483,110 @@ theorem head?_broadcast {α} (p : Pop) (role : Option Role) (g : Nat) (x : List 
     have hgm : m.group = g := by
       have := hm'.2; simp only [Bool.and_eq_true, beq_iff_eq] at this; exact this.1
     simp [this, hgm]
+
+/-! ## any permutation sorting the persons by group gives the same results -/
+
+theorem orderedMap_sorts (ids : List Nat) : SortsByGroup ids (orderedMap ids) := by
+  refine ⟨argsortN_perm ids, ?_⟩
+  refine List.Pairwise.imp ?_ (argsortN_pairwise ids)
+  intro a b hab
+  have := hab.1
+  simpa [leN] using this
+
+theorem filter_sorted_unique (ids l₁ l₂ : List Nat) (h1 : SortsByGroup ids l₁)
+    (h2 : SortsByGroup ids l₂) (P : Nat → Bool)
+    (hP : ∀ i j, i < ids.length → j < ids.length → P i = true → P j = true →
+      ids.getD i 0 = ids.getD j 0 → i = j) :
+    l₁.filter P = l₂.filter P := by
+  apply List.Perm.eq_of_pairwise (le := fun i j => ids.getD i 0 ≤ ids.getD j 0)
+  · intro a b ha hb hab hba
+    have ha' := List.mem_filter.mp ha
+    have hb' := List.mem_filter.mp hb
+    exact hP a b (List.mem_range.mp (h1.1.mem_iff.mp ha'.1)) (List.mem_range.mp (h2.1.mem_iff.mp hb'.1))
+      ha'.2 hb'.2 (Nat.le_antisymm hab hba)
+  · exact List.Pairwise.filter _ h1.2
+  · exact List.Pairwise.filter _ h2.2
+  · exact (h1.1.trans h2.1.symm).filter P
+
+theorem posOf_inj_in_group (ids : List Nat) (i j : Nat) (hi : i < ids.length) (hj : j < ids.length)
+    (hp : posOf ids i = posOf ids j) (hgrp : ids.getD i 0 = ids.getD j 0) : i = j := by
+  have hiM : i ∈ membersIdx ids (ids.getD j 0) := (mem_membersIdx _ _ _).mpr ⟨hi, hgrp⟩
+  have hjM : j ∈ membersIdx ids (ids.getD j 0) := (mem_membersIdx _ _ _).mpr ⟨hj, rfl⟩
+  have e1 := membersIdx_getElem_posOf _ _ _ hiM
+  have e2 := membersIdx_getElem_posOf _ _ _ hjM
+  rw [hp, e2] at e1
+  exact (Option.some.inj e1).symm
+
+theorem valueNthWith_eq {α} (p : Pop) (mp : List Nat) (hmp : SortsByGroup p.ids mp) (k : Nat)
+    (a : List α) (d : α) : valueNthWith p mp k a d = valueNth p k a d := by
+  unfold valueNth valueNthWith
+  by_cases hlen : a.length ≠ p.ms.length
+  · rw [if_pos hlen, if_pos hlen]
+  · rw [if_neg hlen, if_neg hlen]
+    by_cases hidne : p.ids = []
+    · rw [hidne]; rfl
+    · rw [membersPosition_eq _ hidne]
+      simp only
+      have hv : ∀ mp : List Nat,
+          maskSel ((takeD ((List.range p.ids.length).map (posOf p.ids)) mp 0).map (· == k)) (takeD a mp d)
+          = (mp.filter (fun i => ((List.range p.ids.length).map (posOf p.ids)).getD i 0 == k)).map
+              (fun i => a.getD i d) := by
+        intro mp
+        simp only [takeD, List.map_map]
+        rw [maskSel_map]
+        rfl
+      rw [hv mp, hv (orderedMap p.ids)]
+      rw [filter_sorted_unique p.ids mp (orderedMap p.ids) hmp (orderedMap_sorts p.ids)]
+      intro i j hi hj hpi hpj hgrp
+      have hpos : ∀ t, t < p.ids.length →
+          ((List.range p.ids.length).map (posOf p.ids)).getD t 0 = posOf p.ids t := by
+        intro t ht
+        rw [List.getD_eq_getElem?_getD, List.getElem?_map, List.getElem?_range ht]; rfl
+      rw [hpos i hi] at hpi
+      rw [hpos j hj] at hpj
+      exact posOf_inj_in_group p.ids i j hi hj
+        ((beq_iff_eq.mp hpi).trans (beq_iff_eq.mp hpj).symm) hgrp
+
+theorem valueFromPersonWith_eq {α} (p : Pop) (mp : List Nat) (hmp : SortsByGroup p.ids mp)
+    (a : List α) (r : Role) (d : α) (hlen : a.length = p.ms.length)
+    (hu : ∀ g, g < p.n → (valuesOf p (some r) g a).length ≤ 1)
+    (hg : ∀ m ∈ p.ms, m.group < p.n) :
+    valueFromPersonWith p mp a r d = valueFromPerson p a r d := by
+  unfold valueFromPerson valueFromPersonWith
+  by_cases hmax : r.max ≠ some 1
+  · rw [if_pos hmax, if_pos hmax]
+  · rw [if_neg hmax, if_neg hmax, if_neg (by omega), if_neg (by omega)]
+    cases groupAny p (p.hasRole r) none with
+    | error e => rfl
+    | ok ef =>
+      simp only
+      have hv : ∀ mp : List Nat,
+          maskSel (takeD (p.hasRole r) mp false) (takeD a mp d)
+          = (mp.filter (fun i => (p.hasRole r).getD i false)).map (fun i => a.getD i d) := by
+        intro mp
+        simp only [takeD]
+        rw [maskSel_map]
+      rw [hv mp, hv (orderedMap p.ids)]
+      rw [filter_sorted_unique p.ids mp (orderedMap p.ids) hmp (orderedMap_sorts p.ids)]
+      intro i j hi hj hpi hpj hgrp
+      -- both hold the role in the same group, which has at most one holder
+      have hgj : p.ids.getD j 0 < p.n := ids_lt_of_ms p hg _ (by
+        simp [List.getD_eq_getElem?_getD, List.getElem?_eq_getElem hj])
+      have hlen1 := hu _ hgj
+      cases a with
+      | nil =>
+        have : p.ids.length = 0 := by simp [Pop.ids] at hlen ⊢; exact List.eq_nil_of_length_eq_zero hlen.symm
+        omega
+      | cons x xs =>
+        rw [valuesOf_some_eq_idx p _ x hlen r, List.length_map] at hlen1
+        have hiM : i ∈ (membersIdx p.ids (p.ids.getD j 0)).filter (fun i => (p.hasRole r).getD i false) :=
+          List.mem_filter.mpr ⟨(mem_membersIdx _ _ _).mpr ⟨hi, hgrp⟩, hpi⟩
+        have hjM : j ∈ (membersIdx p.ids (p.ids.getD j 0)).filter (fun i => (p.hasRole r).getD i false) :=
+          List.mem_filter.mpr ⟨(mem_membersIdx _ _ _).mpr ⟨hj, rfl⟩, hpj⟩
+        generalize (membersIdx p.ids (p.ids.getD j 0)).filter (fun i => (p.hasRole r).getD i false) = L at *
+        match L, hlen1, hiM, hjM with
+        | [y], _, hiM, hjM =>
+          rw [List.mem_singleton] at hiM hjM
+          rw [hiM, hjM]
 
 end OFCore.Grp
